@@ -13,15 +13,15 @@ T = "JPV.Tables."
 
 PROPS = {
     "C01": dict(
-        modules=["JPV.Props.C01", "JPV.Props.C07"],
-        theorems=["JPV.Props.C01", "JPV.Props.C01_no_descendant", "JPV.Props.C01_child_concat",
+        modules=["JPV.Props.C01", "JPV.Props.C07", "JPV.Props.C13"],
+        theorems=["JPV.Props.C01", "JPV.Props.C01_no_descendant", "JPV.Props.C01_child_concat", "JPV.Props.compile_then_find",
                   "JPV.Props.eval_correct", "JPV.Props.C07_slice", "JPV.Props.C07_index"],
         tables=[T + "env_defaults_model", T + "writes_benign"],
         explore=ce.explore_c01,
     ),
     "C02": dict(
-        modules=["JPV.Props.C02", "JPV.Props.C06"],
-        theorems=["JPV.Props.eval_correct", "JPV.Props.builtin_conforms", "JPV.Props.C02_builtin",
+        modules=["JPV.Props.C02", "JPV.Props.C06", "JPV.Props.C13"],
+        theorems=["JPV.Props.eval_correct", "JPV.Props.builtin_conforms", "JPV.Props.C02_builtin", "JPV.Props.compile_then_find",
                   "JPV.Props.C02_scalar", "JPV.Props.C02_existence", "JPV.Props.C02_logic", "JPV.Props.C06"],
         tables=[T + "precedences_model", T + "precedence_consts", T + "binary_operators_model",
                 T + "token_map_model", T + "function_argument_map_model", T + "builtin_sigs_model"],
